@@ -1,5 +1,7 @@
 """aws/aws_sign.c: every asprintf format string with its argument list, per function; the strftime
-formats; the literals of the key-derivation chain.  The Coq model *interprets* these."""
+formats (with their buffer sizes), the value of time() that is treated as an error, the SHA256_Buf
+calls (data, length expression, output); the literals of the key-derivation chain.  The Coq model
+*interprets* these."""
 import re
 from common import *
 
@@ -68,7 +70,7 @@ def arg_term(a):
 def extract(repo):
     src = strip_comments(read(repo, "aws/aws_sign.c"))
     bodies = func_bodies(src)
-    out = HEADER
+    out = HEADER + "From Coq Require Import ZArith.\n\n"
     out += "Inductive farg : Type := AVar (name : list N) | ALit (bytes : list N).\n\n"
     for fn in FUNCS:
         if fn not in bodies:
@@ -126,6 +128,23 @@ def extract(repo):
             out += "Definition timefns_%s : list (list N) :=\n  [%s].\n\n" % (fn, "; ".join(coq_name(x) for x in tf))
             nt = len(re.findall(r"\btime\s*\(", body))
             out += "Definition time_calls_%s : N := %d%%N.\n\n" % (fn, nt)
+            # the value of time() that makes the function fail: if (time(&t_now) == (time_t)(-1))
+            te = re.findall(r"\btime\s*\(\s*&\s*t_now\s*\)\s*==\s*\(\s*time_t\s*\)\s*\(\s*(-?\d+)\s*\)", body)
+            if len(te) != 1:
+                raise NotFound("the time() error test in " + fn)
+            out += "Definition time_err_%s : Z := (%s)%%Z.\n\n" % (fn, te[0])
+        # SHA256_Buf(data, length-expression, out) calls
+        sh = []
+        for m in re.finditer(r"\bSHA256_Buf\s*\(([^;]*?)\)\s*;", body, flags=re.S):
+            a = split_args(m.group(1))
+            if len(a) != 3:
+                raise NotFound("SHA256_Buf arity in " + fn)
+            sh.append(a)
+        if len(sh) != (0 if fn == "aws_sign_s3_querystr" else 1):
+            raise NotFound("the SHA256_Buf call of " + fn)
+        out += "(* SHA256_Buf calls of %s: (data, length-expression, out) *)\n" % fn
+        out += "Definition sha_calls_%s : list (list N * list N * list N) :=\n  [%s].\n\n" % (
+            fn, "; ".join("(%s, %s, %s)" % (coq_name(d), coq_name(re.sub(r"\s+", "", ln)), coq_name(o)) for d, ln, o in sh))
     # key-derivation chain in aws_sign: HMAC_SHA256_Buf(key, keylen, data, datalen, out)
     chain = []
     for m in re.finditer(r"HMAC_SHA256_Buf\s*\(([^;]*?)\)\s*;", bodies["aws_sign"], flags=re.S):
